@@ -335,6 +335,15 @@ impl Axecutor {
                 return Ok(HookResult::Handled);
             }
 
+            // A break below the start of the heap is refused like on Linux: the current break is returned unchanged
+            if brk < ax.state.syscalls.brk_start {
+                ax.reg_write_64(
+                    RAX,
+                    ax.state.syscalls.brk_start + ax.state.syscalls.brk_length,
+                )?;
+                return Ok(HookResult::Handled);
+            }
+
             // Otherwise, we resize the brk section to the new size
             let new_length = brk - ax.state.syscalls.brk_start;
             ax.mem_resize_section(ax.state.syscalls.brk_start, new_length)?;
